@@ -59,9 +59,17 @@ Definition entry_describes (D : dmap) (accepted : list (string * list string)) (
      end
   && String.eqb (e_help e) (hf_help f).
 
-(* complete and accurate: groups <-> wrappers in order; inside a group, entries <-> exposed fields in declaration order *)
+(* what a group must say about its dataclass: the documentation of the member that holds it, else of the class
+   (spec_description).  In the modelled domain a member carries no documentation of its own (no inspectable source) and
+   the description part of a one-line docstring is the docstring: the group of a class with a docstring shows it *)
+Definition spec_group_description (w : hwrap) : string :=
+  spec_description (Nat.ltb 1 (List.length (hw_path w))) "" "" "" (hw_doc w) (hw_doc w) "" false false.
+
+(* complete and accurate: groups <-> wrappers in order, each with its heading and its description; inside a group,
+   entries <-> exposed fields in declaration order *)
 Definition help_describes (D : dmap) (accepted : list (string * list string)) (F : list hwrap) (gs : list group) : bool :=
   forall2b (fun w g => String.eqb (g_title g) (spec_title w)
+                       && String.eqb (g_desc g) (spec_group_description w)
                        && forall2b (entry_describes D accepted) (filter spec_exposed (hw_fields w)) (g_entries g)) F gs.
 
 (* a field that is not exposed has no action (so it is never shown) and every spelling of it is rejected *)
